@@ -147,7 +147,7 @@ FIXED = [
 def gen_cases(ctx):
     rng = ctx.rng
     st = ctx.stats
-    for key in ("det", "style", "perm_kind", "dim", "detect_batch"):
+    for key in ("det", "style", "perm_kind", "dim", "detect_batch", "detect_batch_type"):
         st[key] = {}
     def bump(key, v):
         st[key][str(v)] = st[key].get(str(v), 0) + 1
@@ -169,6 +169,8 @@ def gen_cases(ctx):
                           "subsets": rng.choice([3, 5])}
                 data = gen_history(rng, rng.randint(6, 10), dim, 8, 26, style, 0.4)
                 bump("detect_batch", db)
+                db_kind = rng.choice(["int", "int", "np_int", "float"])
+                bump("detect_batch_type", db_kind)
             elif name == "KdqTreeBatch":
                 dim = rng.choice([1, 2, 3])
                 params = {"alpha": rng.choice([0.05, 0.2]), "bootstrap_samples": 10, "count_ubound": rng.choice([3, 8])}
@@ -189,7 +191,8 @@ def gen_cases(ctx):
                 perm.append(gen_perm(rng, rows, pk))
                 bump("perm_kind", pk)
             bump("det", name); bump("style", style); bump("dim", dim)
-            cases.append({"det": name, "params": params, "data": data, "perm": perm, "seed": (ctx.seed + 31 * k) % 100000})
+            cases.append({"det": name, "params": params, "data": data, "perm": perm, "seed": (ctx.seed + 31 * k) % 100000,
+                          **({"db_kind": db_kind} if name in ("HDDDM", "CDBD") and db_kind != "int" else {})})
     # one history with test batches larger than any plausible internal block size: a row-blocked
     # implementation must not make the leaf divergence depend on which rows come last
     # (the first is also run through the model; the second, beyond 2^16 rows, is decided on the implementation only)
@@ -225,7 +228,13 @@ def fl(v):
 
 def run_hdm(case, data):
     spec = SPECS[case["det"]]
-    det = spec.make(case["params"])
+    pp = dict(case["params"])
+    # the same number handed over as another numeric type (numpy integer / float): equal, but not identical, to the int
+    if case.get("db_kind") == "np_int":
+        pp["detect_batch"] = np.int64(pp["detect_batch"])
+    elif case.get("db_kind") == "float":
+        pp["detect_batch"] = float(pp["detect_batch"])
+    det = spec.make(pp)
     k = len(data[0][0])
     np.random.seed(seed_of(case, -1))
     det.set_reference(np.array(data[0], dtype=float))
